@@ -190,11 +190,13 @@ def monTopupWeight (ownerGrew : Bool) (othersChanged : Nat) : Verdict :=
 def monTopupBacked (grown : Nat) (fmGot : Int) : Verdict :=
   firstFail [(fmGot == (grown : Int), "C08-topup-unbacked,C05-custody")]
 
-/-- C10 (`mon_exit_weight`): leaving with a position that was still open takes weight away: the owner's and the total's latest
-    weight do not grow, and each becomes strictly smaller unless it was already zero (a recorded weight can have been rounded
-    down to zero by earlier piecewise operations — the property does not promise a positive weight) -/
+/-- C10 (`mon_exit_weight`): leaving with a position that was still open takes its weight away — as far as it is still
+    recorded: the owner's and the total's latest weight both lose min(weight of the position, owner's recorded weight)
+    (`MonSoundG.exit_weights`).  So when the owner's recorded weight is positive both become strictly smaller; when it had been
+    clamped to zero by earlier piecewise operations (the known drift of the F-07 clamp, `C10Eq.pieces_not_exact`) the total
+    stays exactly as it was. -/
 def monExitWeight (ub ua tb ta : Nat) : Verdict :=
-  firstFail [(decide (ua ≤ ub) && decide (ta ≤ tb) && (ub == 0 || decide (ua < ub)) && (tb == 0 || decide (ta < tb)), "C10-weight-kept")]
+  firstFail [(if ub == 0 then ua == 0 && ta == tb else decide (ua < ub) && decide (ta < tb), "C10-weight-kept")]
 
 /-- C13 (`mon_min_receive`): an executed route delivered at least its `minimum_receive` -/
 def monMinReceive (mr got : Nat) : Verdict :=
